@@ -27,6 +27,23 @@ theorem lastSeg_append_nl (a b : List Char) (hb : '\n' ∉ b) : lastSeg (a ++ '\
   | nil => simp [lastSeg, hb]
   | cons c cs ih => simp [lastSeg, ih]
 
+theorem lastSeg_append (a b : List Char) :
+    lastSeg (a ++ b) = if '\n' ∈ b then lastSeg b else lastSeg a + b.length := by
+  induction a with
+  | nil =>
+    by_cases hb : '\n' ∈ b
+    · simp [hb]
+    · simp [hb, lastSeg_no_nl b hb, lastSeg]
+  | cons c cs ih =>
+    simp only [List.cons_append, lastSeg, List.mem_append]
+    by_cases hb : '\n' ∈ b
+    · simp [hb, ih]
+    · simp only [hb, or_false, if_false] at ih ⊢
+      by_cases hcs : '\n' ∈ cs
+      · simp [hcs, ih]
+      · simp only [hcs, if_false, List.length_append]
+        split <;> omega
+
 theorem satInc_le (x : Nat) : satInc x ≤ x + 1 := by unfold satInc; split <;> omega
 theorem satInc_le_max (x : Nat) : satInc x ≤ 65535 := by unfold satInc; split <;> omega
 theorem satInc_eq_min (x : Nat) (h : x ≤ 65535) : satInc x = min (x + 1) 65535 := by
